@@ -75,6 +75,17 @@ def decFaultMap (f : String) : Option (List (Name × Faults)) :=
       pure (n, b)
     | _ => none
 
+/-- what is on disk: `directory name=plugin` (the directory need not be called like the class) -/
+def decDisk (f : String) : Option (List (Name × Plugin)) :=
+  if f = "-" then some [] else
+  (f.splitOn ",").mapM fun item =>
+    match item.splitOn "=" with
+    | [d, p] => do
+      let d ← dec d
+      let p ← decPlugin p
+      pure (d, p)
+    | _ => none
+
 def out (st : DState) (r : Reply) : DState × String :=
   (st, showReply r ++ "\t" ++ encList ((st.w.view 0).map (·.name)) ++ "\t" ++
     encList ((st.w.view 1).map (·.name)) ++ "\t" ++ encList (answered (st.w.view 0)) ++ "\t" ++
@@ -104,11 +115,11 @@ def stepD (st : DState) : List String → DState × String
     | some i, some n, some av, some f, some h => onBot st i fun b => reloadB (ordOf h) b n av f
     | _, _, _, _, _ => (st, "bad-op")
   | ["startup", i, disk, faults, important, always, hint] =>
-    match i.toNat?, (if disk = "-" then some [] else (disk.splitOn ",").mapM decPlugin), decFaultMap faults,
+    match i.toNat?, decDisk disk, decFaultMap faults,
         decList important, decList hint with
     | some i, some disk, some fm, some imp, some h =>
       let env : Env :=
-        { disk := fun n => disk.find? fun p => lower p.name == lower n,
+        { disk := fun n => (disk.find? fun x => lower x.1 == lower n).map (·.2),   -- directories match without regard to case
           faults := fun n => ((fm.find? fun x => lower x.1 == lower n).map (·.2)).getD {},
           important := imp, alwaysLoadImportant := always = "1" }
       onBot st i fun b => (.success, startup (ordOf h) env b)
